@@ -1432,6 +1432,58 @@ fn seq_case(t: &mut Tape, unsupported: bool) -> CaseResult {
     Ok(CaseInfo { hash: hash_str(&txt), nontrivial: non_default || racing, classes, sample: Some(cj), observations })
 }
 
+// ------------------------------------------------------------------------------------------------
+// engine `documented-options`: the time lengths the book documents but ICU4X 1.5 cannot build
+
+/// The book lists `full` and `long` for `time_length` (formatters `time` and `datetime`), ICU4X 1.5
+/// has no TimeFormatter / DateTimeFormatter for them (time-zone field) and the crate panics on
+/// `expect("A TimeFormatter")`. One probe per documented combination (2 locales each), in process
+/// under `catch_unwind`; a panic is reported with the signature
+/// `documented-option-panics:<formatter>:time_length=<length>`, a call that yields text is recorded.
+fn run_documented_options(ctx: &mut Ctx) {
+    let probes: [(&str, &str, Opts, Val); 4] = [
+        ("time", "full", Opts::Time { len: 0 }, Val::Time(0)),
+        ("time", "long", Opts::Time { len: 1 }, Val::Time(0)),
+        ("datetime", "full", Opts::DateTime { date: D_DATE, time: 0 }, Val::DateTime(0, 0)),
+        ("datetime", "long", Opts::DateTime { date: D_DATE, time: 1 }, Val::DateTime(0, 0)),
+    ];
+    for (formatter, length, opts, val) in probes {
+        let mut panics: Vec<Value> = vec![];
+        let mut passes: Vec<(usize, String)> = vec![];
+        for locale in [0usize, 4] {
+            let s = Step { opts: opts.clone(), locale, val: val.clone(), flavour: 0 };
+            match crate_actual(&s) {
+                Ok(text) => passes.push((locale, text)),
+                Err(msg) => panics.push(json!({"locale": LOCALES[locale].as_str(), "panic": msg})),
+            }
+        }
+        if panics.is_empty() {
+            for (locale, text) in passes {
+                ctx.record(CaseInfo {
+                    hash: hash_str(&format!("documented-options:{}:{}", opts.describe(), LOCALES[locale].as_str())),
+                    nontrivial: true,
+                    classes: vec!["documented time length works".into()],
+                    sample: Some(json!({"formatter": formatter, "options": opts.describe(), "locale": LOCALES[locale].as_str(), "output": text})),
+                    observations: 1,
+                });
+            }
+        } else {
+            let f = Failure {
+                signature: format!("documented-option-panics:{formatter}:time_length={length}"),
+                detail: json!({
+                    "formatter": formatter,
+                    "options": opts.describe(),
+                    "call": "format_*_to_display",
+                    "panics": panics,
+                    "locales_that_produced_text": passes.iter().map(|(l, t)| json!([LOCALES[*l].as_str(), t])).collect::<Vec<_>>(),
+                    "why": "the book documents time_length: full | long; ICU4X 1.5 cannot build a (Date)TimeFormatter with these lengths (time-zone field) and the crate panics instead of formatting",
+                }),
+            };
+            ctx.fail("documented-options", None, &f);
+        }
+    }
+}
+
 const CHILD_ENV: &str = "VERIF_C18_CHILD";
 
 /// child entry: tape words as JSON on stdin, one JSON line on stdout
@@ -1533,9 +1585,13 @@ pub fn run(mut ctx: Ctx) -> ! {
             "matrix" => {
                 run_matrix(&mut ctx);
             }
+            "documented-options" => {
+                run_documented_options(&mut ctx);
+            }
             other => ctx.harness_error(format!("replay file names unknown engine {other:?}")),
         }
     } else {
+        run_documented_options(&mut ctx);
         let a = run_parse(&mut ctx);
         let b = run_macro(&mut ctx);
         let c = run_matrix(&mut ctx);
@@ -1547,6 +1603,7 @@ pub fn run(mut ctx: Ctx) -> ! {
                 "macro": "complete: every option combination of every formatter that ICU4X 1.5 can build (time lengths full/long cannot: time-zone field) through td_format_string!/td_format_display!, 32 keys through td_string!/td_display!, x 8 locales x 3 values",
                 "matrix": "complete: every option combination ICU4X 1.5 can build x value pool x 8 locales x 3 flavours of the __private helpers",
                 "seq": "sampled (not exhaustive): generated call histories / thread schedules",
+                "documented-options": "the 4 documented combinations ICU4X 1.5 cannot build (time / datetime x time_length full / long) x 2 locales: a panic is reported as documented-option-panics:*",
             }),
         );
         let cases = ctx.tier.scale(800, 12_000);
